@@ -2,20 +2,28 @@ package generator
 
 import (
 	"fmt"
+	"sort"
 
 	"github.com/jmattheis/goverter/method"
 )
 
 func validateMethods(lookup *method.Index[generatedMethod]) error {
+	var genMethods []*generatedMethod
 	for _, hits := range lookup.Exact {
 		for _, entry := range hits {
-			genMethod := entry.Item
+			genMethods = append(genMethods, entry.Item)
+		}
+	}
+	// report the same method on every run when several are invalid
+	sort.Slice(genMethods, func(i, j int) bool {
+		return genMethods[i].Name < genMethods[j].Name
+	})
 
-			if genMethod.Explicit && len(genMethod.RawFieldSettings) > 0 {
-				isTargetStructPointer := genMethod.Target.Pointer && genMethod.Parameters.Target.PointerInner.Struct
-				if !genMethod.Target.Struct && !isTargetStructPointer {
-					return fmt.Errorf("Invalid struct field mapping on method:\n    %s\n    %s\n\nField mappings like goverter:map or goverter:ignore may only be set on struct or struct pointers.\nSee https://goverter.jmattheis.de/guide/configure-nested", genMethod.Location, genMethod.ID)
-				}
+	for _, genMethod := range genMethods {
+		if genMethod.Explicit && len(genMethod.RawFieldSettings) > 0 {
+			isTargetStructPointer := genMethod.Target.Pointer && genMethod.Parameters.Target.PointerInner.Struct
+			if !genMethod.Target.Struct && !isTargetStructPointer {
+				return fmt.Errorf("Invalid struct field mapping on method:\n    %s\n    %s\n\nField mappings like goverter:map or goverter:ignore may only be set on struct or struct pointers.\nSee https://goverter.jmattheis.de/guide/configure-nested", genMethod.Location, genMethod.ID)
 			}
 		}
 	}
